@@ -159,7 +159,7 @@ pub fn judge(c: &Case, st: &mut Stats) -> Verdict {
     Ok(())
 }
 
-fn gen_case(t: &mut Tape) -> Case {
+pub fn gen_case(t: &mut Tape) -> Case {
     let mut c = Case {
         a4: crate::gen::gen_v4(t),
         b4: crate::gen::gen_v4(t),
